@@ -1,8 +1,8 @@
 # Framework build: everything from files on disk, offline.
 GOENVV = GOFLAGS=-mod=mod GOPROXY=off GOSUMDB=off GOTOOLCHAIN=local
-.PHONY: setup tools coq clean
+.PHONY: setup tools coq props clean
 
-setup: tools coq
+setup: tools coq props
 
 REPO ?= $(if $(VERIF_REPO),$(VERIF_REPO),/repo)
 tools:
@@ -18,6 +18,12 @@ coq: tools
 	cd coq && coq_makefile -f _CoqProject -o Makefile
 	cd coq && timeout 3000 $(MAKE) -j16
 	python3 checklib/forbidden.py coq
+
+# every property file must check against the freshly built development (the checks recompile their own again)
+props: coq
+	rm -rf .work/props && mkdir -p .work/props
+	for f in coq/Properties/C*.v; do cp $$f .work/props/Properties_$$(basename $$f); done
+	cd .work/props && ls Properties_*.v | xargs -P 16 -I{} sh -c 'timeout 1800 coqc -Q ../../coq Sheens {} > {}.log 2>&1 || (echo FAILED {}; tail -20 {}.log; exit 255)'
 
 clean:
 	rm -rf .work
